@@ -342,10 +342,11 @@ def normalise(ctx, f: FunctionInfo, node: ast.AST, *, depth: int = 6) -> ast.AST
     return cur
 
 
-def value_sources(ctx, f: FunctionInfo, node: ast.AST, *, limit: int = 400):
+def value_sources(ctx, f: FunctionInfo, node: ast.AST, *, limit: int = 400, visited: Optional[list] = None):
     """Everything the value of expression `node` (a node of f's tree) may be computed from, following EVERY reaching definition of
     every local transitively: returns (parameter names, dotted attribute chains such as 'self.nodes', call names).  Over-approximate
-    (union over paths) - use it for "derives from X on some path" / "cannot derive from anything but X" arguments."""
+    (union over paths) - use it for "derives from X on some path" / "cannot derive from anything but X" arguments.  `visited`, if
+    given, receives every expression that was followed (the argument itself and the right-hand sides of the definitions)."""
     from .dataflow import assigned_value
     rd = ctx.rd(f)
     params, attrs, calls = set(), set(), set()
@@ -357,6 +358,8 @@ def value_sources(ctx, f: FunctionInfo, node: ast.AST, *, limit: int = 400):
         if n_steps > limit:
             break
         e = work.pop()
+        if visited is not None:
+            visited.append(e)
         for x in ast.walk(e):
             if isinstance(x, ast.Attribute):
                 d = dotted(x)
